@@ -103,3 +103,43 @@ def opUPlace (args res : List String) : Verdict :=
   | _, _ => { spec := some "bad-args" }
 
 end Driver
+
+namespace Driver
+
+/-- `xref <hex> <ecl> <mode> <v> => ok <n> <0/1 modules>` | `skip`: a symbol made by the independent `qrcode`
+crate, read by the specification side only (no model, nothing of fast_qr): cross-validation of Spec.* -/
+def opXref (args res : List String) : Verdict :=
+  match args, res with
+  | [hx, e, md, v], ["ok", n, bits] =>
+    let input := parseHexBytes hx
+    let l := ECL.ofIx e.toNat!
+    let v := v.toNat!
+    let mode := Mode.ofIx md.toNat!
+    let n := n.toNat!
+    let g : Spec.Grid := ⟨n, parseNibbles bits⟩
+    let rm := regionMap v
+    let badStd := (List.range (n * n)).findSome? fun k =>
+      match Spec.Regions.stdValue v (k / n) (k % n) with
+      | some b => if g.dark (k / n) (k % n) == b then none else some s!"function-module({k / n},{k % n})"
+      | none => none
+    let fmtv := firstFail [
+      cmp "side" (toString (Spec.Regions.side v)) (toString n),
+      cmp "format-copy-2" (toString (Spec.Decode.formatCopy1 g)) (toString (Spec.Decode.formatCopy2 g)),
+      (if v ≥ 6 then firstFail [
+        cmp "version-copy-1" (toString (Spec.BCH.version18 (v + 1))) (toString (Spec.Decode.versionCopy1 g)),
+        cmp "version-copy-2" (toString (Spec.BCH.version18 (v + 1))) (toString (Spec.Decode.versionCopy2 g))] else none)]
+    let dec := match Spec.Decode.decode g rm with
+      | .error err => some s!"decode:{err}"
+      | .ok r =>
+        let ec := Spec.Decode.ecLen v l
+        firstFail [
+          cmp "level" (toString l.ix) (toString r.ecl.ix),
+          (if r.remainder.all (· == false) then none else some "remainder-bits"),
+          (r.blocks.zipIdx.findSome? fun (blk, i) =>
+            if (Spec.GF.syndromes (blk.1 ++ blk.2) ec).all (· == 0) then none else some s!"nonzero-syndrome:block{i}"),
+          (if r.parsed == some ⟨mode, input⟩ then none else some "parsed-segment-is-not-the-input")]
+    { spec := (firstFail [fmtv, badStd, dec]).map ("SPEC-vs-independent-encoder:" ++ ·) }
+  | _, ["skip"] => {}
+  | _, _ => { spec := some "bad-args" }
+
+end Driver
